@@ -34,6 +34,7 @@ from ._read_common import (
     missing_codec_lib,
 )
 from .const import NAMED_TYPES, AVRO_TYPES
+from ._schema_common import default_to_python
 
 T = TypeVar("T")
 
@@ -551,7 +552,9 @@ def read_record(
             for f_name, field in readers_field_dict.items():
                 if f_name not in writer_fields and f_name not in record:
                     if "default" in field:
-                        record[field["name"]] = field["default"]
+                        record[field["name"]] = default_to_python(
+                            field["default"], field["type"], named_schemas["reader"]
+                        )
                     else:
                         msg = f"No default value for field {field['name']} in {reader_schema['name']}"
                         raise SchemaResolutionError(msg)
